@@ -199,3 +199,19 @@ Example C02_run_delivery_example :
   map (fun b => (b_frame b, b_atropos b, length (b_delivered b))) dx_blocks = [(1, 1000, 1%nat); (2, 1015, 15%nat)]%N.
 Proof. exact (conj ex2_valid (conj dx_run_delivers (proj1 dx_delivered_is_new_ancestry))). Qed.
 Print Assumptions C02_run_delivers_new_graph_ancestry.
+
+(* ---- the persisted form of the records C02 relies on (model/AbftStore.v, proofs/AbftStoreCodec.v) ----
+   The confirmed-on frame, the last decided frame, the epoch state and the root keys, written as the Go code
+   writes them (4-byte big-endian frame / validator), answer every read exactly like the abstract records as
+   long as the numbers fit their declared type uint32.  The STORE glue cases of the C02 check run the real
+   abft.Store against this model at the width boundaries. *)
+From LV Require Import model.AbftStore proofs.AbftStoreCodec.
+Theorem C02_store_codecs_are_transparent : forall ops, Forall op_ok ops ->
+  srun store_start ops = arun astore_start ops /\
+  store_trace astore_start (combine ops (srun store_start ops)) = true.
+Proof. intros ops H. split; [exact (run_refines ops _ _ R_start H)|exact (store_model_meets_spec ops H)]. Qed.
+Theorem C02_confirmed_frame_roundtrip : forall s e f, (f < 2 ^ 32)%N ->
+  fst (sstep (snd (sstep s (SoCF e f))) (SoGC e)) = SbN f.
+Proof. exact confirmed_get_after_set. Qed.
+Print Assumptions C02_store_codecs_are_transparent.
+Print Assumptions C02_confirmed_frame_roundtrip.
